@@ -24,6 +24,7 @@ func checkC02(c *Ctx, r *Report) {
 	}
 	checkDMTables(c, r)
 	checkDMGenerators(c, r)
+	checkDMECCBlock(c, r)
 	checkDMRandomize(c, r)
 	checkDMPlacement(c, r)
 	checkDMRegionSwitches(c, r)
@@ -46,6 +47,8 @@ func checkC02(c *Ctx, r *Report) {
 	checkDMEdifactDecode(c, r)
 	checkDMC40EOD(c, r)
 	checkDMC40End(c, r)
+	checkDMWholeEncode(c, r)
+	checkWriterAcceptsContents(c, r, "datamatrix", "DataMatrixWriter.Encode", "BarcodeFormat_DATA_MATRIX") // "every non-empty text succeeds": the writer itself refuses only the empty one
 	checkDMCharset(c, r)
 	checkDMNativeChars(c, r)
 	checkDMLookup(c, r) // the size hints: a text that fits a permitted symbol is not refused (same obligations as under C13)
